@@ -472,7 +472,7 @@ class JoinModel:
         it = self.it
         out: List[Emission] = []
         for e in it.events:
-            if e.kind != "call":
+            if e.kind != "call" or self.infeasible(e):
                 continue
             b = self.bufelem(e.term[1])
             if b is None:
@@ -568,8 +568,20 @@ class JoinModel:
         return self.meaningful(e.conds[len(self.it.loops[L].conds):])
 
     def meaningful(self, conds) -> Tuple[Cond, ...]:
-        """Drop the literals that only say `no raise happened` (negated raise guards)."""
-        return tuple(c for c in conds if c not in self.it.no_raise_lits)
+        """Drop the literals that only say `no raise happened` (negated raise guards) or `<a row index> is not None`."""
+        return tuple(c for c in conds if c not in self.it.no_raise_lits and not self._row_none_test(c, False))
+
+    def _row_none_test(self, c: Cond, truth: bool) -> bool:
+        """c == (<row index term> is None) with polarity `truth`.  Row indices (loop counters, bucket elements) are ints."""
+        t, pol = c
+        if t[0] == "cmp" and t[1] == "Is" and t[3] == NONE and pol == truth:
+            r = t[2]
+            return r[0] == "idx" or (r[0] == "elem" and self.bucket is not None and r[1] == self.bucket)
+        return False
+
+    def infeasible(self, e: Event) -> bool:
+        """An event on a path that requires a row index to be None."""
+        return any(self._row_none_test(c, True) for c in e.conds)
 
     def events_in(self, L: int) -> List[Event]:
         return [e for e in self.it.events if L in e.loops]
